@@ -169,9 +169,10 @@ theorem Bucket.marshalCopyM_noErr (v : V) : NoErr (Bucket.marshalCopyM v) := by
   unfold Bucket.marshalCopyM
   apply NoErr.bind (Bucket.marshalM_noErr _); intro _; exact noErr_ok _
 
-/-- the bucket's encoding (after Len(), as GroupMod encodes it) is a multiple of 8 bytes long -/
-def BucketAligned (b : V) : Prop :=
-  ∀ l b1 bytes b2, Bucket.lenM b = .ok (l, b1) → Bucket.marshalM b1 = .ok (bytes, b2) → bytes.length % 8 = 0
+/-- the bucket's encoding (after Len(), as GroupMod encodes it) does not exceed 65528 bytes, the largest size a
+    bucket can report: no uint16 wrap-around in Bucket.Len() -/
+def BucketFits (b : V) : Prop :=
+  ∀ l b1 bytes b2, Bucket.lenM b = .ok (l, b1) → Bucket.marshalM b1 = .ok (bytes, b2) → bytes.length ≤ 65528
 
 theorem catchErr_noErr {α} (r : R α) (d x : α) (e : Bool) (hn : NoErr r) (h : InstrAux.catchErr r d = .ok (x, e)) :
     r = .ok x ∧ e = false := by
